@@ -43,6 +43,13 @@ def key_expr(rng, i):
     return "(make-box '%s)" % tag, None
 
 
+def query_op(e):
+    return {"src": "(let* ((e (vector-ref E %d)) (k (ephemeron-key e)) (v (ephemeron-value e))) (list (ephemeron-broken? e) "
+                   "(let loop ((i 0)) (cond ((= i %d) (if k 'other #f)) ((and k (eq? k (vector-ref K i))) i) (else (loop (+ i 1))))) "
+                   "(if (or (pair? v) (vector? v)) (let ((o (open-output-string))) (write (if (and (pair? v) (pair? (cdr v)) (not (string? (cadr v))) (not (symbol? (cadr v)))) (car v) v) o) (get-output-string o)) (if v 'obj #f))))"
+                   % (e, NK), "kind": "query", "slot": e}
+
+
 class Model:
     """Reference reachability model."""
 
@@ -103,7 +110,9 @@ def gen_history(rng):
         elif op == "unroot":
             if not m.key:
                 continue
-            i = rng.choice(sorted(m.key))
+            # prefer keys that some ephemeron's value refers to: after the unroot they are held only through that value
+            chained = sorted(sl for sl, kid in m.key.items() if any(kid in e["refs"] for e in m.eph.values()))
+            i = rng.choice(chained) if chained and rng.chance(2, 3) else rng.choice(sorted(m.key))
             del m.key[i]
             ops.append({"src": "(vector-set! K %d #f) #t" % i, "kind": "unroot", "slot": i})
         elif op == "mk-eph":
@@ -112,7 +121,7 @@ def gen_history(rng):
             e = rng.below(NE)
             i = rng.choice(sorted(m.key))
             kid = m.key[i]
-            vk = rng.below(5)
+            vk = rng.weighted([(0, 2), (1, 1), (2, 4), (3, 1), (4, 1)])
             tag = "v%d" % rng.below(100000)
             refs = []
             if vk == 0:
@@ -140,14 +149,15 @@ def gen_history(rng):
             ops.append({"src": "(vector-set! E %d #f) #t" % e, "kind": "drop-eph", "slot": e})
         elif op == "gc":
             ops.append({"op": "gc", "kind": "gc"})
+            if m.eph and rng.chance(1, 2):
+                # look at every ephemeron right after the collection
+                for e in sorted(m.eph):
+                    ops.append(query_op(e))
         elif op == "query":
             if not m.eph:
                 continue
             e = rng.choice(sorted(m.eph))
-            ops.append({"src": "(let* ((e (vector-ref E %d)) (k (ephemeron-key e)) (v (ephemeron-value e))) (list (ephemeron-broken? e) "
-                               "(let loop ((i 0)) (cond ((= i %d) (if k 'other #f)) ((and k (eq? k (vector-ref K i))) i) (else (loop (+ i 1))))) "
-                               "(if (or (pair? v) (vector? v)) (let ((o (open-output-string))) (write (if (and (pair? v) (pair? (cdr v)) (not (string? (cadr v))) (not (symbol? (cadr v)))) (car v) v) o) (get-output-string o)) (if v 'obj #f))))"
-                               % (e, NK), "kind": "query", "slot": e})
+            ops.append(query_op(e))
         elif op == "open":
             p = rng.below(NP)
             kind = rng.weighted([("file-in", 4), ("file-out", 2), ("fd-in", 2), ("fd-in-noclose", 1), ("fd-shared", 2)])
